@@ -383,3 +383,101 @@ def replay_endpoints(fl, FA, vals=None, cls="Arc", which="end", seed=0, n=2000, 
             return {"failed": True, "class": f"endpoint:{cls}:{which}", "expected": f"{want!r} (the documented value at x = {which})", "observed": repr(got),
                     "call": f"fl.{cls}('t', {a!r}, {b!r}, {h!r}).membership({x!r})", "cases": done}
     return {"failed": False, "cases": done, "distinct": done}
+
+
+def _sample_params(FA, t, rng, tries=200):
+    """a valid parameter vector of the class: small numbers, equal neighbours (degenerate shapes), +-inf where the class accepts it, several heights"""
+    import numpy as np
+    pool = [-2.0, -1.0, -0.5, 0.0, 0.25, 0.5, 1.0, 2.0, 3.0, float("inf"), float("-inf")]
+    for _ in range(tries):
+        kw = {}
+        for k in t.params:
+            kw[k] = rng.choice(pool) if rng.random() < 0.7 else round(rng.uniform(-3, 3), 3)
+        if rng.random() < 0.5 and len(t.params) >= 3:          # ordered shapes: sort the finite/infinite values so that the order constraints are often met
+            vs = sorted(kw.values())
+            kw = dict(zip(t.params, vs))
+        if t.height:
+            kw["height"] = rng.choice([1.0, 1.0, 0.5, 0.25, 0.8, 0.9995])
+        if bool(t.valid(FA, {k: np.float64(v) for k, v in kw.items()})):
+            return kw
+    return None
+
+
+def replay_sampled(fl, FA, cls=None, what="membership", seed=0, budget=40, vals=None, **kw_):
+    """bounded stand-in / fallback for a function that left the verified subset: the REAL method against the documented closed form on sampled
+    valid parameter vectors (degenerate and infinite ones included) x the breakpoints, their floating-point neighbours, midpoints, +-inf and NaN;
+    element-wise on arrays (also arrays with nothing inside the support); and again after RE-CONFIGURING the same object (nothing remembered
+    from the previous parameters)."""
+    import random
+    import numpy as np
+    rng = random.Random(seed)
+    classes = [cls] if cls else sorted(TERMS)
+    cases = 0
+    for c in classes:
+        t = TERMS[c]
+        if what == "tsukamoto" and not t.monotone:
+            continue
+        obj = None
+        for it in range(budget):
+            kw = _sample_params(FA, t, rng)
+            if kw is None:
+                break
+            fin = [v for k, v in kw.items() if k != "height" and np.isfinite(v)]
+            if what == "membership":
+                pts = set(fin) | {np.nextafter(v, np.inf) for v in fin} | {np.nextafter(v, -np.inf) for v in fin}
+                pts |= {(a + b) / 2 for a in fin for b in fin} | {float("inf"), float("-inf"), float("nan"), round(rng.uniform(-4, 4), 3), 0.3}
+                for x in sorted(pts, key=lambda v: (v != v, v)):
+                    # closed form in doubles: conditioned like a square root next to a vertical tangent (Arc, SemiEllipse: ~1e-8 one ulp away from an end
+                    # point), hence the absolute tolerance 1e-6; where the closed form itself is not evaluable (root of a rounding-negative number) no oracle
+                    term_, kwf = _mk(fl, c, kw)
+                    p_ = {k: np.float64(v) for k, v in kwf.items()}
+                    exp, obs = t.oracle(FA, p_, np.float64(x)), np.float64(term_.membership(np.float64(x)))
+                    cases += 1
+                    if x == x and exp != exp:
+                        continue
+                    if not FA.same(exp, obs, rel=1e-9, abs_=1e-6) or (t.height and bool(np.isnan(obs)) != bool(np.isnan(x))):
+                        return {"failed": True, "cases": cases, "expected": float(exp), "observed": float(obs),
+                                "call": f"{c}({', '.join(f'{k}={v!r}' for k, v in kwf.items())}).membership({x!r})"}
+                x, x2 = rng.choice(sorted(p for p in pts if p == p)), round(rng.uniform(-4, 4), 3)
+                r = replay(fl, FA, "elementwise", c, dict(kw, x=x, x2=x2))
+                cases += 1
+                if r.get("failed"):
+                    return dict(r, cases=cases)
+                # an array with nothing finite in it, and a lone NaN next to points far outside
+                term, _ = _mk(fl, c, kw)
+                for arr in (np.array([np.nan, np.inf, -np.inf]), np.array([np.nan, 1e9, -1e9]), np.array([[np.nan, 0.3], [1e9, np.inf]])):
+                    got = np.asarray(term.membership(arr.copy()), dtype=float)
+                    exp = np.array([np.float64(term.membership(np.float64(v))) for v in arr.ravel()]).reshape(arr.shape)
+                    cases += 1
+                    if got.shape != arr.shape or not all(FA.same(u, v) for u, v in zip(got.ravel(), exp.ravel())):
+                        return {"failed": True, "cases": cases, "expected": exp.tolist(), "observed": got.tolist() if got.shape == arr.shape else f"shape {got.shape}",
+                                "call": f"{c}({', '.join(f'{k}={v!r}' for k, v in kw.items())}).membership({arr.tolist()}) against the same points one by one"}
+                # the same object, re-configured: equals a fresh object with the new parameters
+                if obj is None:
+                    obj = term
+                    obj.membership(np.float64(0.3))
+                else:
+                    for k, v in kw.items():
+                        setattr(obj, k, v)
+                    for x in list(sorted(p for p in pts if p == p))[:8]:
+                        a, b = np.float64(obj.membership(np.float64(x))), np.float64(term.membership(np.float64(x)))
+                        cases += 1
+                        if not FA.same(a, b):
+                            return {"failed": True, "cases": cases, "expected": float(b), "observed": float(a),
+                                    "call": f"{c}.membership({x!r}) of an object evaluated earlier and then re-configured to {kw} against a fresh {c} with the same parameters"}
+            else:
+                h = kw.get("height", 1.0)
+                ys = [h * f for f in (0.1, 0.25, 0.4, 0.5, 0.6, 0.75, 0.9, 0.999)] + [rng.uniform(0, h) for _ in range(3)]
+                for y in ys:
+                    for clause in ("tsukamoto.finite", "tsukamoto.roundtrip"):
+                        r = replay(fl, FA, clause, c, dict(kw, y=y))
+                        cases += 1
+                        if r.get("failed"):
+                            return dict(r, cases=cases)
+                for y, y2 in zip(ys, ys[1:]):
+                    for clause in ("tsukamoto.monotone", "tsukamoto.elementwise"):
+                        r = replay(fl, FA, clause, c, dict(kw, y=y, y2=y2))
+                        cases += 1
+                        if r.get("failed"):
+                            return dict(r, cases=cases)
+    return {"failed": False, "cases": cases, "distinct": cases}
